@@ -89,7 +89,7 @@ def mk(kind, dname, cname, ctxname, n, follow, tiers, python=0, join=0, props=No
                                              ".f" if follow else "", ".py" if python else "", ".join" if join else "")
     return Job(name, props or PROPS[kind], "harness/parser.c",
                sources=["lib/getfilecontents.c", "lib/helpers.c"], stubs=["stubs/stdio_real.c"],
-               contracts=["contracts/readfile.h"], unwind=n + 4, tier="T2",
+               contracts=["contracts/bufsiz_small.h", "contracts/readfile.h"], unwind=n + 4, tier="T2",
                post_unwindset=({"join_same_entries@1": 5, "join_same_entries@2": 5, "join_same_entries@3": n + 2,
                                 "join_same_entries@4": n + 2} if join else None),
                bounds="line under test <= %d bytes (every byte value); context %s = %r%s; delimiters %r comments %r"
@@ -99,7 +99,7 @@ def mk(kind, dname, cname, ctxname, n, follow, tiers, python=0, join=0, props=No
                functions=["read_file", "store", "check_delim", "setGroupList", "getFromGroupList"],
                trusted=["fopen/getline/fclose hand out the scenario's lines (stubs/stdio_real.c); "
                         "asprintf/snprintf/strndup byte-level models; __attribute__((cleanup)) on org_buf is "
-                        "dropped by goto-cc"],
+                        "dropped by goto-cc; BUFSIZ scaled to 4 so that every line is longer than the initial line buffer"],
                statement=STATEMENTS[kind])
 
 
